@@ -370,7 +370,13 @@ class Ctx:
 
     # ---------------------------------------------------------------- verdicts
     def broken_tie(self, what, detail=""):
-        self.broken.append((what, detail))
+        n = sum(1 for w, _ in self.broken if w == what)
+        self.count("broken:" + what[:60])
+        if n < 3:
+            self.broken.append((what, detail))
+
+    def has_violation(self, key):
+        return any(v["key"] == key and key is not None for v in self.violations)
 
     def violation(self, what, replay, key=None, found=True):
         """Register a property violation seen on the implementation. `key` classifies the failing history for known_findings.txt."""
